@@ -304,6 +304,7 @@ def history_check(prop, tier, seed, jobs, nruns=None, force=None, only=None):
                 if digs[run] != by_run[run]["digest"]:
                     restart_mismatch.append(run)
     # violations
+    known = load_known()
     viol, new_viol, known_hits, out_lines = triage(prop, seed, results, tier)
     for run in restart_mismatch[:3]:
         r = next(x for x in results if x["run"] == run)
